@@ -113,6 +113,19 @@ BUILT = {
              'sampling) is compared with noll_to_nm, fringe_to_nm, nm_to_fringe, ansi_j_to_nm, nm_to_ansi_j and xy_j_to_mn.',
         note='Trusted: TLC. Bounded: every index 1..20000 (quick) / 1..100000 (thorough), radial orders up to 199 / 446; xy_j_to_mn compared up to index 3000 / 20000.',
         technique='TLA+ spec (ZernikeIndex.tla, integer-only constructive definitions) checked by TLC for every index; exported table compared exhaustively with the prysm index functions'),
+    'C15': dict(
+        spec='Conv.tla',
+        text='Conv.tla defines circular convolution about the origin n div 2 as the direct double sum on integer arrays and TLC checks identity and '
+             'translation by an impulse at every position, commutativity, linearity and the product of totals for every shape of the menu; transfer-function '
+             'application is modelled per frequency coordinate in the shifted and the unshifted convention (GridLib layouts) with arrays and callables as '
+             'opaque factors: every frequency receives the factor belonging to that frequency in both conventions (the pinned variant, which hands '
+             'callables the shifted grid always, must violate this); |OTF|^2 of non-negative integer PSFs is exact on cyclotomic orders dividing 4 or 6, so '
+             'MTF(0)=1, MTF<=1 and point symmetry are exact integer laws. Emitted cases are replayed into conv (integer inputs, exact outputs), '
+             'apply_transfer_functions (nine transfer-function lists mixing arrays and callables of fx, fy, fr, ft, both conventions, list-vs-product, '
+             'identity) and mtf_/ptf_/otf_from_psf (value against the exact rational, DC, bound, symmetry, OTF = MTF exp(i PTF)).',
+        note='Trusted: TLC, numpy FFT for applying the factor table (bound to the textbook sum by C01/C02). Bounded: shapes up to 5x4 (quick) / 6x5; OTF shapes '
+             'with axis lengths in {1,2,3,4,6} and lcm in {1,2,3,4,6}.',
+        technique='TLA+ spec (Conv.tla: direct-sum convolution laws, per-frequency factor model, exact MTF^2) checked by TLC; emitted cases replayed into prysm.convolution / prysm.otf'),
 }
 
 NOT_BUILT_REASON = 'not built yet in this round (specification planned in DESIGN.md section 4; never decided by another technique)'
